@@ -1069,6 +1069,11 @@ class Session:
                 extra = {"pred": "fold" if self.cur_kw.get("fold") else ""}
             elif name in ("fission", "autofission"):
                 extra = {"pred": self.fission_pred(pid_in)}
+                if name == "autofission" and not extra["pred"]:
+                    n_in = sum(1 for _, st in stmt_paths(self.procs[pid_in]._loopir_proc) if isinstance(st, LoopIR.For))
+                    n_out = sum(1 for _, st in stmt_paths(self.procs[pid_out]._loopir_proc) if isinstance(st, LoopIR.For))
+                    if n_out <= n_in:
+                        extra["pred"] = "loop-dropped"
             if v["sig"] == "unbound-use":
                 from .oracles.validator import binder_kind
 
